@@ -7,20 +7,48 @@
 (* (input bytes, options, capacity -> expected verdict, offset, spans,     *)
 (* error kind, completion witness), so every prefix of every enumerated    *)
 (* input is replayed against the real parser.                              *)
+(*                                                                         *)
+(*   BYTE  seed . b . f          b in 0..255, f in Follow                  *)
+(*   EXT   seed . w              w in Alpha^(<=L)                          *)
+(*   LANE  seed . filler^k . b . f   k <= L, b in LaneBytes, f in Follow   *)
+(*         (only self-looping phases: every SIMD/SWAR block phase)         *)
+(*   SEQ   seed . x1 . x2 ... xn     xi in Stages[i] (byte strings)        *)
+(*   WALK  random walks (tlc -simulate) over a grammar-directed alphabet   *)
 (***************************************************************************)
 EXTENDS Head, Json, IOUtils
-CONSTANTS Family,      \* "BYTE" | "EXT" | "LANE" | "WALK"
-          SeedCaps,    \* which seed capacities to start from
-          SeedKinds,   \* which kinds to start from
-          Follow,      \* BYTE: second-byte alphabet
-          Alpha,       \* EXT : extension alphabet
-          L,           \* EXT : extension length; LANE: max filler run; WALK: depth
-          SeedMod, SeedRem  \* shard: use seeds with index % SeedMod = SeedRem
-VARIABLES s, buf, cfgb, stage, cnt
-vars == <<s, buf, cfgb, stage, cnt>>
+CONSTANTS Family, SeedCaps, SeedKinds, SeedMaxLen, SeedPhases, SeedCfgs, Follow, Alpha, L, LaneBytes,
+          SeedMod, SeedRem      \* shard: seeds with index % SeedMod = SeedRem
+VARIABLES s, buf, cfgb, stage, cnt, todo
+vars == <<s, buf, cfgb, stage, cnt, todo>>
 
 Seeds == ndJsonDeserialize(IOEnv.SEEDS)
 KindName(i) == CASE i = 0 -> "req" [] i = 1 -> "resp" [] i = 2 -> "hdrs" [] i = 3 -> "chunk"
+
+\* ---- SEQ stage tables (selected by name through the constant L) ----
+Str(x) == x       \* byte strings are written as tuples of byte values
+Digs == {<<d>> : d \in 48..57}
+HexPats(n) == { [i \in 1..n |-> 70], [i \in 1..n |-> 102], [i \in 1..n |-> 48],
+                [i \in 1..n |-> IF i = 1 THEN 49 ELSE 48],
+                [i \in 1..n |-> IF i = n THEN 57 ELSE 48],
+                [i \in 1..n |-> IF i % 3 = 0 THEN 65 ELSE IF i % 3 = 1 THEN 55 ELSE 101] }
+StagesOf(name) ==
+  CASE name = "CODE" ->
+         << {<<72,84,84,80,47,49,46,49,32>>, <<72,84,84,80,47,49,46,48,32>>}, Digs, Digs, Digs,
+            {<<LF, LF>>, <<SP, 79, 75, CR, LF, CR, LF>>, <<SP, LF, LF>>} >>
+    [] name = "DIGITS" ->
+         << UNION {HexPats(n) : n \in 0..20},
+            {<<CR, LF>>, <<SEMI, 120, CR, LF>>, <<SP, HT, CR, LF>>, <<LF>>} >>
+    [] name = "LINES" ->
+         LET ls == { <<97, COLON, 98, LF>>, <<97, COLON, SP, 98, SP, CR, LF>>, <<97, COLON, LF>>,
+                     <<SP, 99, LF>>, <<120, LF>>, <<97, SP, COLON, 98, LF>>, <<97, COLON, 1, LF>> }
+         IN << ls, ls, ls, ls, {<<LF>>, <<CR, LF>>, <<98, COLON>>} >>
+    [] name = "LINES5" ->
+         LET ls == { <<97, COLON, 98, LF>>, <<97, COLON, SP, 98, SP, CR, LF>>, <<97, COLON, LF>>,
+                     <<SP, 99, LF>>, <<120, LF>>, <<97, SP, COLON, 98, LF>>, <<97, COLON, 1, LF>>,
+                     <<HT, LF>>, <<97, COLON, CR, LF>> }
+         IN << ls, ls, ls, ls, ls, ls, {<<LF>>, <<CR, LF>>, <<98, COLON>>} >>
+    [] OTHER -> << >>
+Stages == StagesOf(L)
 
 LoopPh == {"METHOD", "TARGET", "REASON", "NAME", "NAME_WS", "OWS", "VALUE", "IGN", "EXT",
            "LWS", "SIZE", "RSKIP", "T0", "LEAD", "HLINE"}
@@ -34,6 +62,9 @@ SeedOk(i) ==
   /\ i % SeedMod = SeedRem
   /\ KindName(Seeds[i][1]) \in SeedKinds
   /\ Seeds[i][3] \in SeedCaps \/ Seeds[i][1] = 3
+  /\ Len(Seeds[i][4]) <= SeedMaxLen
+  /\ SeedPhases = {} \/ PhaseNames[Seeds[i][5]] \in SeedPhases
+  /\ SeedCfgs = {} \/ Seeds[i][2] \in SeedCfgs
   /\ Family = "LANE" => /\ PhaseNames[Seeds[i][5]] \in LoopPh
                         /\ Extreme(KindName(Seeds[i][1]), Seeds[i][2])
 
@@ -41,21 +72,34 @@ Init == \E i \in 1..Len(Seeds) :
           /\ SeedOk(i)
           /\ buf = Seeds[i][4] /\ cfgb = Seeds[i][2]
           /\ s = Run(KindName(Seeds[i][1]), CfgOfBits(Seeds[i][2]), Seeds[i][3], Seeds[i][4])
-          /\ stage = 0 /\ cnt = 0
+          /\ stage = 0 /\ cnt = 0 /\ todo = <<>>
 
 Feed(b) == s' = Step(s, b) /\ buf' = Append(buf, b) /\ cfgb' = cfgb
 
-NextByte == \/ stage = 0 /\ \E b \in Byte : Feed(b) /\ stage' = 1 /\ cnt' = cnt
-            \/ stage = 1 /\ \E b \in Follow : Feed(b) /\ stage' = 2 /\ cnt' = cnt
-NextExt == cnt < L /\ \E b \in Alpha : Feed(b) /\ cnt' = cnt + 1 /\ stage' = stage
-NextLane == \/ stage = 0 /\ cnt < L /\ s.ph \in LoopPh /\ Feed(Filler(s.ph)) /\ cnt' = cnt + 1 /\ stage' = 0
-            \/ stage = 0 /\ \E b \in Byte : Feed(b) /\ stage' = 1 /\ cnt' = cnt
-            \/ stage = 1 /\ \E b \in Follow : Feed(b) /\ stage' = 2 /\ cnt' = cnt
+NextByte == /\ todo' = todo
+            /\ \/ stage = 0 /\ \E b \in Byte : Feed(b) /\ stage' = 1 /\ cnt' = cnt
+               \/ stage = 1 /\ \E b \in Follow : Feed(b) /\ stage' = 2 /\ cnt' = cnt
+NextExt == cnt < L /\ \E b \in Alpha : Feed(b) /\ cnt' = cnt + 1 /\ stage' = stage /\ todo' = todo
+NextLane == /\ todo' = todo
+            /\ \/ stage = 0 /\ cnt < L /\ s.ph \in LoopPh /\ Feed(Filler(s.ph)) /\ cnt' = cnt + 1 /\ stage' = 0
+               \/ stage = 0 /\ \E b \in LaneBytes : Feed(b) /\ stage' = 1 /\ cnt' = cnt
+               \/ stage = 1 /\ \E b \in Follow : Feed(b) /\ stage' = 2 /\ cnt' = cnt
+NextSeq == /\ cnt' = cnt
+           /\ \/ todo # <<>> /\ Feed(Head(todo)) /\ todo' = Tail(todo) /\ stage' = stage
+              \/ todo = <<>> /\ stage < Len(Stages) /\ \E x \in Stages[stage + 1] :
+                   /\ stage' = stage + 1
+                   /\ IF x = <<>> THEN UNCHANGED <<s, buf, cfgb>> /\ todo' = <<>>
+                      ELSE Feed(Head(x)) /\ todo' = Tail(x)
+\* WALK: bytes that keep the current phase alive, plus a few that do not
+WalkBytes == {0, 9, 10, 13, 32, 33, 47, 48, 49, 50, 58, 59, 65, 70, 72, 80, 84, 97, 102, 127, 128, 195, 255, 46}
+NextWalk == cnt < L /\ \E b \in WalkBytes : Feed(b) /\ cnt' = cnt + 1 /\ stage' = stage /\ todo' = todo
 
 Next == /\ ~IsDone(s)
         /\ CASE Family = "BYTE" -> NextByte
              [] Family = "EXT" -> NextExt
              [] Family = "LANE" -> NextLane
+             [] Family = "SEQ" -> NextSeq
+             [] Family = "WALK" -> NextWalk
 Spec == Init /\ [][Next]_vars
 
 Emit == PrintT(ToJson(VecOf(s, buf, cfgb)))
